@@ -480,10 +480,12 @@ pub fn run(ctx: &Ctx) -> PropResult {
     }));
     wls.push(Workload::cases("range_end_values_with_an_outward_offset", ctx.count(10_000, 400_000), |rec, _, rng| judge_outward_pair(rec, rng)));
     wls.push(Workload::cases("offset_local_twins", ctx.count(3_000, 40_000), |rec, _, rng| super::localzone::twin_pair_case(rec, rng, "C03")));
+    wls.push(Workload::cases("trait_dispatch_vs_method_syntax", ctx.count(8_000, 200_000), |rec, _, rng| super::ufcs::case(rec, rng, "C03")));
     let out = run_workloads(ctx, wls);
     let mut meta = PropMeta::default();
     meta.rule = "timestamps: boundary list (range edges ±3 d ±{0,1,2,86399..86401}, 0, 0001-01-01, i64::MIN/MAX, powers of two) + stratified random i64; in range ⇒ DateTime round trip, Date floor-to-day, and the order (cmp, ==) of the value against the values of ts±1, ts±86400, 0 and the day start is the order of the timestamps (as_ymdhms / nanos_since deviations from the model are only noted: other properties own them); out of range ⇒ must panic. pairs: instants (8 strata) x delta (0, ±1 ns, sub-second, k units ± few ns, days, 2^62 ns, uniform) x two independent offsets from the whole ±86399 s range; ==, cmp, partial_cmp, <, >, reverse cmp and the sign of all nine *_since compared with the i128 model instants (inputs are used only where every read-out route agrees with the model, so that a constructor/read-out defect owned by another property skips the case instead of failing it); Date pairs (day order) and Time pairs (as_nanos order) likewise. Non-trivial = any timestamp not in the plain positive class; any pair that is not both far apart and same-offset. Distinct by input hash. Values whose local reading lies beyond a range end (offset attached 3 days inside, then moved there with add_/sub_seconds) compared with partners in the same second / few seconds / two days: ==, cmp, partial_cmp, <, <=, max and timestamp() must work on the UTC instant. Offset::Local twins (pairs): with the system zone hooked to resolve to o, two values carrying Offset::Local relate (==, cmp, <) exactly like their Offset::Fixed(o) twins. The order is read through ==, !=, cmp, partial_cmp, <, >, <=, >=, max, min, clamp and std::cmp::max. Offsets: one pair in ten carries an Offset::Fixed of a day or more. Timestamp call sequences (siblings 2^j seconds / days away, the negative, the same second of another day, then the first again).".into();
-    meta.required_bins = vec![
+    meta.rule.push_str(" The property's trait methods are also called through the trait (generic code / UFCS) and must agree with method syntax on the same operands (a type may grow inherent twins of its trait methods).");
+    meta.required_bins = vec!["trait-dispatch/compared", 
         "sequence/sibling-calls",
         "outward/local-reading-beyond-the-range-end",
         "local-twin/judged", "local-twin/synthetic-fixed-zone", "local-twin/real-zone-with-transitions",
